@@ -64,7 +64,7 @@ def load_known_findings():
 
 
 def run_verus(gen_path, rlimit, threads=16, extra=()):
-    cmd = ["verus", gen_path, "--output-json", "--time", "--multiple-errors", "50", "--error-format=json",
+    cmd = ["verus", gen_path, "--output-json", "--time", "--multiple-errors", "8", "--error-format=json",
            "--rlimit", str(rlimit), "--num-threads", str(threads), "--triggers-mode", "silent"] + list(extra)
     t0 = time.time()
     r = sh(cmd, cwd=os.path.dirname(gen_path))
@@ -255,14 +255,14 @@ class Session:
         return r
 
     def verify(self):
-        rl = 20 if self.tier == "quick" else 60
+        rl = 60 if self.tier == "quick" else 150
         res = self.cached("main_rl%d" % rl, lambda: run_verus(self.gen_path, rl))
         if res["json"] is None:
             raise Undecided("verus produced no JSON (rc=%s): %s" % (res["rc"], res["stderr_tail"][-800:]))
         failed, other, rlimit = classify(res["diags"], self.lines, self.fns)
         if rlimit and self.tier == "quick":
             # one retry at 3x before giving up
-            res = self.cached("main_rl60", lambda: run_verus(self.gen_path, 60))
+            res = self.cached("main_rl180", lambda: run_verus(self.gen_path, 180))
             failed, other, rlimit = classify(res["diags"], self.lines, self.fns)
         self.main = res
         self.failed, self.other, self.rlimit = failed, other, rlimit
